@@ -126,8 +126,9 @@ pub struct RegSpec {
     pub user_id: Vec<u8>,
     pub user_name: String,
     pub challenge: Vec<u8>,
-    /// (type known?, algorithm number)
     pub algs: Vec<i64>,
+    /// entries whose algorithm is not ES256 carry an unknown credential type string
+    pub unknown_type_for_unsupported: bool,
     pub cd: CdMode,
     pub uv: Option<UserVerificationRequirement>,
     pub resident_key: Option<ResidentKeyRequirement>,
@@ -153,6 +154,8 @@ pub struct AuthSpec {
     pub rp_id: Option<String>,
     pub challenge: Vec<u8>,
     pub allow: AllowSpec,
+    /// credential type strings of the allow-list descriptors: 0 = all "public-key", 1 = all unknown, 2 = alternating
+    pub allow_types: u8,
     pub cd: CdMode,
     pub uv: UserVerificationRequirement,
     pub prf: PrfSpec,
@@ -165,6 +168,7 @@ pub struct MakeSpec {
     pub user_id: Vec<u8>,
     pub cdh: Vec<u8>,
     pub algs: Vec<i64>,
+    pub unknown_type_for_unsupported: bool,
     pub exclude: Option<Vec<IdRef>>,
     pub rk: bool,
     pub up: bool,
@@ -180,6 +184,7 @@ pub struct GetSpec {
     pub rp_id: String,
     pub cdh: Vec<u8>,
     pub allow: AllowSpec,
+    pub allow_types: u8,
     pub up: bool,
     pub uv: bool,
     pub prf_eval: Option<([u8; 32], Option<[u8; 32]>)>,
@@ -224,14 +229,14 @@ impl Op {
         }
         match self {
             Op::Register(r) => json!({"op": "register", "origin": r.origin.url(), "rp_id": r.rp_id, "user_id": hex_short(&r.user_id),
-                "user_name": r.user_name, "challenge": hex_short(&r.challenge), "algs": r.algs, "client_data": r.cd.name(),
+                "user_name": r.user_name, "challenge": hex_short(&r.challenge), "algs": r.algs, "unknown_type_for_unsupported_algs": r.unknown_type_for_unsupported, "client_data": r.cd.name(),
                 "uv": r.uv.map(|u| format!("{u:?}")), "resident_key": r.resident_key.map(|u| format!("{u:?}")), "require_rk": r.require_rk,
                 "cred_props": r.cred_props, "prf": prf(&r.prf), "exclude": ids(&r.exclude), "uv_outcome": format!("{:?}", r.uv_outcome)}),
             Op::Authenticate(a) => json!({"op": "authenticate", "origin": a.origin.url(), "rp_id": a.rp_id, "challenge": hex_short(&a.challenge),
-                "allow": allow(&a.allow), "client_data": a.cd.name(), "uv": format!("{:?}", a.uv), "prf": prf(&a.prf), "uv_outcome": format!("{:?}", a.uv_outcome)}),
-            Op::Make(m) => json!({"op": "make_credential", "rp_id": m.rp_id, "user_id": hex_short(&m.user_id), "algs": m.algs,
+                "allow": allow(&a.allow), "allow_descriptor_types": a.allow_types, "client_data": a.cd.name(), "uv": format!("{:?}", a.uv), "prf": prf(&a.prf), "uv_outcome": format!("{:?}", a.uv_outcome)}),
+            Op::Make(m) => json!({"op": "make_credential", "rp_id": m.rp_id, "user_id": hex_short(&m.user_id), "algs": m.algs, "unknown_type_for_unsupported_algs": m.unknown_type_for_unsupported,
                 "exclude": ids(&m.exclude), "rk": m.rk, "up": m.up, "uv": m.uv, "prf_eval": m.prf_eval.is_some(), "hmac_secret": m.hmac_secret, "uv_outcome": format!("{:?}", m.uv_outcome)}),
-            Op::Get(g) => json!({"op": "get_assertion", "rp_id": g.rp_id, "allow": allow(&g.allow), "up": g.up, "uv": g.uv, "prf_eval": g.prf_eval.is_some(), "uv_outcome": format!("{:?}", g.uv_outcome)}),
+            Op::Get(g) => json!({"op": "get_assertion", "rp_id": g.rp_id, "allow": allow(&g.allow), "allow_descriptor_types": g.allow_types, "up": g.up, "uv": g.uv, "prf_eval": g.prf_eval.is_some(), "uv_outcome": format!("{:?}", g.uv_outcome)}),
         }
     }
 }
@@ -402,7 +407,7 @@ impl World {
                     .iter()
                     .filter_map(|a| {
                         use coset::iana::EnumI64;
-                        coset::iana::Algorithm::from_i64(*a).map(|alg| PublicKeyCredentialParameters { ty: PublicKeyCredentialType::PublicKey, alg })
+                        coset::iana::Algorithm::from_i64(*a).map(|alg| PublicKeyCredentialParameters { ty: if r.unknown_type_for_unsupported && *a != -7 { PublicKeyCredentialType::Unknown } else { PublicKeyCredentialType::PublicKey }, alg })
                     })
                     .collect();
                 let mut opts = crate::util::creation_options(r.rp_id.as_deref(), &r.user_id, &r.user_name, &r.challenge, params);
@@ -446,7 +451,7 @@ impl World {
                     }
                     AllowSpec::Ids(l) => {
                         let ids: Vec<Vec<u8>> = l.iter().map(|i| self.resolve(i)).collect();
-                        let d = ids.iter().map(|i| descriptor(i)).collect();
+                        let d = ids.iter().enumerate().map(|(k, i)| crate::util::descriptor_typed(i, a.allow_types == 0 || (a.allow_types == 2 && k % 2 == 0))).collect();
                         resolved_allow = Some(ids);
                         Some(d)
                     }
@@ -476,7 +481,7 @@ impl World {
                     .iter()
                     .filter_map(|a| {
                         use coset::iana::EnumI64;
-                        coset::iana::Algorithm::from_i64(*a).map(|alg| PublicKeyCredentialParameters { ty: PublicKeyCredentialType::PublicKey, alg })
+                        coset::iana::Algorithm::from_i64(*a).map(|alg| PublicKeyCredentialParameters { ty: if m.unknown_type_for_unsupported && *a != -7 { PublicKeyCredentialType::Unknown } else { PublicKeyCredentialType::PublicKey }, alg })
                     })
                     .collect();
                 let exclude = m.exclude.as_ref().map(|ex| {
@@ -510,7 +515,7 @@ impl World {
                     }
                     AllowSpec::Ids(l) => {
                         let ids: Vec<Vec<u8>> = l.iter().map(|i| self.resolve(i)).collect();
-                        let d = ids.iter().map(|i| descriptor(i)).collect();
+                        let d = ids.iter().enumerate().map(|(k, i)| crate::util::descriptor_typed(i, g.allow_types == 0 || (g.allow_types == 2 && k % 2 == 0))).collect();
                         resolved_allow = Some(ids);
                         Some(d)
                     }
@@ -583,6 +588,8 @@ pub const RPS: &[(&str, &[&str])] = &[
     ("example.com", &["example.com", "www.example.com", "login.accounts.example.com"]),
     ("example.org", &["example.org", "app.example.org"]),
     ("shop.example.co.uk", &["shop.example.co.uk", "eu.shop.example.co.uk"]),
+    // IDN: the url crate keeps hosts in punycode, which is also the origin's serialisation
+    ("xn--mnchen-3ya.de", &["xn--mnchen-3ya.de", "www.xn--mnchen-3ya.de"]),
 ];
 
 pub fn gen_origin(rng: &mut Rng) -> (OriginSpec, Option<String>) {
@@ -665,6 +672,7 @@ pub fn gen_register(rng: &mut Rng) -> RegSpec {
         user_name,
         challenge: gen_challenge(rng),
         algs: ALG_LISTS[rng.below(ALG_LISTS.len())].to_vec(),
+        unknown_type_for_unsupported: rng.chance(1, 4),
         cd: gen_cd(rng),
         uv: match rng.below(4) {
             0 => None,
@@ -706,6 +714,7 @@ pub fn gen_authenticate(rng: &mut Rng) -> AuthSpec {
             1 => AllowSpec::Empty,
             _ => AllowSpec::Ids(gen_idrefs(rng)),
         },
+        allow_types: *rng.pick(&[0u8, 0, 0, 1, 2]),
         cd: gen_cd(rng),
         uv: *rng.pick(&[UserVerificationRequirement::Required, UserVerificationRequirement::Preferred, UserVerificationRequirement::Discouraged]),
         prf: if rng.chance(1, 4) {
@@ -725,6 +734,7 @@ pub fn gen_make(rng: &mut Rng) -> MakeSpec {
         user_id,
         cdh: rng.bytes(32),
         algs: ALG_LISTS[1 + rng.below(ALG_LISTS.len() - 1)].to_vec(),
+        unknown_type_for_unsupported: rng.chance(1, 4),
         exclude: if rng.chance(1, 5) { Some(gen_idrefs(rng)) } else { None },
         rk: rng.bool(),
         up: !rng.chance(1, 10),
@@ -746,6 +756,7 @@ pub fn gen_get(rng: &mut Rng) -> GetSpec {
             1 => AllowSpec::Empty,
             _ => AllowSpec::Ids(gen_idrefs(rng)),
         },
+        allow_types: *rng.pick(&[0u8, 0, 0, 1, 2]),
         up: !rng.chance(1, 10),
         uv: rng.bool(),
         prf_eval: if rng.chance(1, 4) { Some((rng.arr32(), if rng.bool() { Some(rng.arr32()) } else { None })) } else { None },
